@@ -134,17 +134,23 @@ def swarm? (s : RState) (ih : Bytes) (f : Fam) : Option MemStore.Swarm :=
 def announcePeers (s : RState) (ih : Bytes) (seeder : Bool) (numWant : Nat) (p : Peer) : Option (List Bytes) :=
   (swarm? s ih p.fam).map (MemStore.selectPeers · seeder numWant (MemStore.peerKey p))
 
-/-- one swarm key of the pass: HGETALL, HDEL of the stale fields, DECRBY, then the WATCH/HLEN/MULTI
-removal of the index entry when the hash is empty -/
-def gcKey (s : RState) (f : Fam) (k : Bytes) (cutoff : Int) : RState :=
-  let m := hget s k
-  let stale := m.filter (fun e => decide (e.2 ≤ cutoff))
+/-- first round trip of the collector on one swarm key: HGETALL, and the fields it decides to remove -/
+def gcKeyRead (s : RState) (k : Bytes) (cutoff : Int) : List (Bytes × Int) :=
+  (hget s k).filter (fun e => decide (e.2 ≤ cutoff))
+
+/-- the remaining round trips: HDEL of the fields decided on, DECRBY, then the WATCH/HLEN/MULTI removal
+of the index entry when the hash is empty. (HDEL removes a field whatever its current value.) -/
+def gcKeyApply (s : RState) (f : Fam) (k : Bytes) (stale : List (Bytes × Int)) : RState :=
   let s1 := stale.foldl (fun acc e => (hdel acc k e.1).1) s
   let s2 := if stale.length > 0 then addC s1 f (if keyIsSeeder k then .s else .l) (-(stale.length : Int)) else s1
   if (hget s2 k).isEmpty then
     let s3 := setIdx s2 f (AMap.erase (idx s2 f) k)
     if keyIsSeeder k then addC s3 f .ih (-1) else s3
   else s2
+
+/-- one swarm key of the pass, run without anything in between -/
+def gcKey (s : RState) (f : Fam) (k : Bytes) (cutoff : Int) : RState :=
+  gcKeyApply s f k (gcKeyRead s k cutoff)
 
 def gcFam (s : RState) (f : Fam) (cutoff : Int) : RState :=
   (AMap.keys (idx s f)).foldl (fun acc k => gcKey acc f k cutoff) s
